@@ -19,6 +19,7 @@ namespace vh
     std::string run_pool_case(const vj::value&);
     std::string run_adi_case(const vj::value&);
     std::string run_uf_case(const vj::value&);
+    std::string run_big_case(const vj::value&);
 
     std::string run_flow_controlled(const vj::value& c, const std::function<std::string()>& body);
 
@@ -48,6 +49,8 @@ namespace vh
             return run_adi_case(c);
         if (kind == "uf")
             return run_uf_case(c);
+        if (kind == "big")
+            return run_big_case(c);
         throw std::runtime_error("unknown case kind " + kind);
     }
 
